@@ -341,6 +341,26 @@ def _visit(R, ti, mat, only):
             flat = [x for part in seen for x in part]
             if flat != allpix:
                 R.mismatch("split-pipeline-does-not-visit-every-pixel-once", inner, f"saw={flat} stored={allpix}")
+            # repeated runs: the same pipeline object executed again (gather, then reduce, then iteration), a second pipeline
+            # derived from the same base, and prepare() - every execution visits every pixel once
+            f = lambda chunk: list(zip(chunk["pixels"]["bin1_id"].tolist(), chunk["pixels"]["bin2_id"].tolist()))  # noqa: E731
+            base = split(clr, chunksize=cs)
+            p1 = base.pipe(f)
+            runs = {"gather": [x for part in p1.gather() for x in part],
+                    "gather-again": [x for part in p1.gather() for x in part],
+                    "reduce": p1.reduce(lambda acc, part: acc + part, []),
+                    "iterate": [x for part in p1 for x in part],
+                    "second-pipeline-from-the-same-base": [x for part in base.pipe(f).gather() for x in part],
+                    "two-stages": [x for part in base.pipe(f).pipe(lambda part: [(b, a) for a, b in part]).gather() for x in part]}
+            runs["two-stages"] = [(a, b) for b, a in runs["two-stages"]]
+            pp = split(clr, chunksize=cs).prepare(lambda chunk: len(chunk["pixels"]["bin1_id"])).pipe(lambda chunk, data: (data, f(chunk)))
+            got = pp.gather()
+            runs["prepare"] = [x for k, part in got for x in part]
+            if any(k != len(part) for k, part in got):
+                R.mismatch("split-pipeline-prepare-result-not-passed-along", inner, f"{got}")
+            for how, flat2 in runs.items():
+                if flat2 != allpix:
+                    R.mismatch("split-pipeline-does-not-visit-every-pixel-once:" + how, inner, f"saw={flat2} stored={allpix}")
             # spans handed to every map call of a balancing run
             for mode in c10.MODES:
                 log = []
